@@ -580,6 +580,21 @@ def pgcd(a, b, p):
     return pmonic(a, p)
 
 
+def pxgcd(a, b, p):
+    """(d, s, t) with d = gcd(a, b) monic and s a + t b = d."""
+    r0, r1 = ptrim([x % p for x in a]), ptrim([x % p for x in b])
+    s0, s1, t0, t1 = [1], [], [], [1]
+    while r1:
+        q, r = pdivmod(r0, r1, p)
+        r0, r1 = r1, r
+        s0, s1 = s1, psub(s0, pmul(q, s1, p), p)
+        t0, t1 = t1, psub(t0, pmul(q, t1, p), p)
+    if not r0:
+        return [], [], []
+    inv = pow(r0[-1], -1, p)
+    return pmul(r0, [inv], p), pmul(s0, [inv], p), pmul(t0, [inv], p)
+
+
 def pshift(a, s, p):
     """a(x + s) mod p (Horner)."""
     r = []
@@ -632,6 +647,32 @@ class RefMumford:
                     if pmod(pmul(v, v, p), u, p) == fu:
                         out.append((tuple(u), tuple(v)))
         return out
+
+    def op(self, D1, D2):
+        """Cantor's algorithm in the Handbook of Elliptic and Hyperelliptic Curve Cryptography
+        formulation (Algorithm 14.7): two extended gcds, composition, reduction steps."""
+        p, f = self.p, self.f
+        u1, v1 = list(D1[0]), list(D1[1])
+        u2, v2 = list(D2[0]), list(D2[1])
+        d1, e1, e2 = pxgcd(u1, u2, p)
+        d, c1, c2 = pxgcd(d1, padd(v1, v2, p), p)
+        s1, s2, s3 = pmul(c1, e1, p), pmul(c1, e2, p), c2
+        u, rem = pdivmod(pmul(u1, u2, p), pmul(d, d, p), p)
+        assert not rem
+        num = padd(padd(pmul(pmul(s1, u1, p), v2, p), pmul(pmul(s2, u2, p), v1, p), p),
+                   pmul(s3, padd(pmul(v1, v2, p), f, p), p), p)
+        v, rem = pdivmod(num, d, p)
+        assert not rem
+        v = pmod(v, u, p)
+        while len(u) - 1 > self.g:
+            u, rem = pdivmod(psub(f, pmul(v, v, p), p), u, p)
+            assert not rem
+            v = pmod([-c % p for c in v], u, p)
+        u = pmonic(u, p)
+        return (tuple(u), tuple(v))
+
+    def mul(self, n, D):
+        return _scalar_mul(self, n, D)
 
     def compose_unreduced(self, D1, D2):
         """If deg u1 + deg u2 <= g and gcd(u1, u2, v1 + v2) = 1, the sum is the unique (u, v) with
